@@ -268,7 +268,9 @@ def rule_ccs(ctx):
     gs = ctx.an.cfg(fs)
     sccs = [n for n in consumes_of(gs, "_sendMsg") if "ChangeCipherSpec()" in norm(n.call)]
     ws = nodes_with_call(gs, "_changeWriteState")
-    sfin = [n for n in consumes_of(gs, "_sendMsg") if norm(n.call) == "self._sendMsg(finished)"]
+    from .common import resolved_text as _rt
+    sfin = [n for n in consumes_of(gs, "_sendMsg") if n.call.args and "Finished(" in _rt(fs.node, n.call.args[0])
+            and "ChangeCipherSpec(" not in _rt(fs.node, n.call.args[0])]
     if not sccs or not ws or not sfin:
         raise AnalysisError("C06.CCS: _sendFinished anchors not found")
     must_pass(ctx, R, fs, gs, [gs.entry], ws, sccs, "CCS sent before the write state switch",
